@@ -2002,6 +2002,17 @@ def _more_c04(tier):
         out.append({"tag": "randsz_obj:two_lists", "desc": "two random-size object lists (%d,%d objects; size bounds %d,%d)" % (n1, n2, b1, b2),
                     "prog": {"enums": {}, "classes": [Item, Top]}, "world": [["top", "obj", "Top"]],
                     "ops": [["randomize", ["top"]], ["randomize", ["top"]], ["randomize_with", ["top"], [E([">=", ["size", ["p"]], lit(1)])]], ["randomize", ["top"]]]})
+    # unique over fields of the current element inside a foreach over objects; a foreach nested under a condition inside a foreach
+    ItemU = {"name": "ItemU", "fields": [fld("x", ("u", 2)), fld("y", ("u", 2)), ["arr", "list", ["u", 4], 2, True, False]], "blocks": []}
+    for bi, body in enumerate(([["foreach", ["items"], "i", [["unique", [["it", "i", "x"], ["it", "i", "y"]]]]]],
+                               [["foreach", ["items"], "i", [["unique", [["it", "i", "x"], ["it", "i", "y"], F("a")]], E(["!=", ["it", "i", "x"], ["idx", "i"]])]]],
+                               [["foreach", ["items"], "i", [["if", [[["<", F("b"), lit(128)], [["foreach", [["itv", "i"], "arr"], "j", [E(["<", ["it", "j"], lit(3)])]]]]], None]]]],
+                               [["foreach", ["items"], "i", [["implies", [">", ["it", "i", "x"], lit(1)], [["foreach", [["itv", "i"], "arr"], "j", [E(["==", ["it", "j"], ["idx", "i"]])]]]]]]],
+                               [["foreach", ["items"], "i", [["if", [[["==", ["idx", "i"], lit(0)], [["foreach", [["itv", "i"], "arr"], "j", [E([">", ["it", "j"], lit(12)])]]]]],
+                                                               [["foreach", [["itv", "i"], "arr"], "j", [E(["<", ["it", "j"], lit(2)])]]]]]]])):
+        TopU = {"name": "Top", "fields": [["items", "list", ["obj", "ItemU"], 3, True, False], fld("a", ("u", 2)), fld("b", ("u", 8))], "blocks": [["tb", "c", body]]}
+        out.append({"tag": "obj_list:foreach_unique_nested", "desc": "unique / conditional nested foreach inside a foreach over objects #%d" % bi, "prog": {"enums": {}, "classes": [ItemU, TopU]},
+                    "world": [["top", "obj", "Top"]], "ops": [["randomize", ["top"]], ["randomize", ["top"]], ["randomize_with", ["top"], [E([">=", F("b"), lit(128)])]], ["randomize", ["top"]]]})
     # random-size scalar lists owned by the elements of a list of objects (and by a directly nested object)
     ItemR = {"name": "ItemR", "fields": [fld("x", ("u", 8)), ["v", "list", ["u", 8], 0, True, True]],
              "blocks": [["ib", "c", [E(["in", ["size", ["v"]], [["rng", lit(1), lit(3)]]]), ["foreach", ["v"], "j", [E(["<", ["it", "j"], lit(10)])]]]]]}
